@@ -154,6 +154,11 @@ def main():
         die("unknown check " + cid)
     spec = reg[cid]
     binp, ov = build(cid, spec)
+    # a run against another tree (mutation / seed runs) must not leave its counterexamples among the replays of /repo
+    if REPO != "/repo" and "-replays" not in rest:
+        rdir = os.path.join("/tmp", "verif-replays-" + hashlib.sha1(REPO.encode()).hexdigest()[:6])
+        os.makedirs(rdir, exist_ok=True)
+        rest = rest + ["-replays", rdir]
     hargs = ["-tier", tier] + spec.get("args", []) + spec.get(tier + "_args", []) + rest
     env = dict(ENV)
     env["VERIF_OVERLAY"] = ov
